@@ -1,4 +1,5 @@
 import MptModel.Impl.Heap
+import MptModel.Impl.HeapXX
 import MptModel.Spec.Vec
 import MptModel.Spec.Tokens
 import Driver.Util
@@ -19,6 +20,7 @@ structure St where
   seenLog : Nat := 0                   -- events already printed
   live : Tokens.Live := Tokens.empty   -- S of C05: live tokens
   illegal : String := ""
+  xkind : String := ""                 -- C++ part: kind of the handles of this script (`x handles n kind`)
   deriving Inhabited
 
 def traitsByName (elem : Bool) : String → Option (Option Traits)
@@ -38,7 +40,8 @@ def traitsC : Traits := { id := 5, size := 1, init := false, fini := none }
 def traitsName : Option Traits → String
   | none => "-"
   | some t => match t.id with
-    | 1 => "p1" | 2 => "p4" | 3 => "p24" | 4 => "z" | 5 => "c" | 6 => "m4" | 7 => "m8" | 8 => "n4" | _ => "?"
+    | 1 => "p1" | 2 => "p4" | 3 => "p24" | 4 => "z" | 5 => "c" | 6 => "m4" | 7 => "m8" | 8 => "n4"
+    | 11 => "x1" | 12 => "x12" | 13 => "xe" | _ => "?"
 
 def bufOf (m : State) (h : Nat) : Option Buf := (m.handle h).bind m.buf?
 
@@ -410,8 +413,212 @@ def step (elem : Bool) (st : St) (w : List String) : St × String :=
       | _, _ => bad
   | _ => bad
 
+
+/-! ### C++ layer (`x` lines, harness/drvxx_array.cpp) -/
+
+def xTraits1 : Traits := { id := 11, size := 1, init := false, fini := none }
+def xTraits12 : Traits := { id := 12, size := 12, init := false, fini := none }
+def xTraitsE : Traits := { id := 13, size := 4, init := true, fini := some 3 }
+
+/-- kinds of typed arrays; `arr` (mpt::array) has no kind -/
+def xKindOf : String → Option XKind
+  | "t1" => some { t := xTraits1, unique := false }
+  | "t12" => some { t := xTraits12, unique := false }
+  | "te" => some { t := xTraitsE, unique := false }
+  | "u1" => some { t := xTraits1, unique := true }
+  | "u12" => some { t := xTraits12, unique := true }
+  | "ue" => some { t := xTraitsE, unique := true }
+  | _ => none
+
+def intArg (s : String) : Option Int :=
+  if s.startsWith "-" ∧ s.length > 1 then
+    match nat? (s.drop 1).toString with
+    | some a => if a > 100000 then none else some (- Int.ofNat a)
+    | none => none
+  else match nat? s with
+    | some a => if a > 100000 then none else some (Int.ofNat a)
+    | none => none
+
+/-- data argument of the C++ driver: plain numbers only -/
+def xData (s : String) : Option (List Byte × Bool) :=
+  if s.startsWith "zero:" then (nat? (s.drop 5).toString).map fun n => (Heap.zeros n, true)
+  else if s.startsWith "fill:" then
+    match ((s.drop 5).toString.splitOn ":") with
+    | [n, hh] =>
+      match nat? n, parseHex hh with
+      | some n, some [b] => if b = 0 ∨ n > 100000 then none else some (fillBytes n b.toNat, false)
+      | _, _ => none
+    | _ => none
+  else (parseHex s).map fun b => (b, false)
+
+/-- the value inserted/assigned for a one-byte argument -/
+def xVal (k : XKind) (b : Byte) : List Byte := (List.range k.t.size).map fun i => UInt8.ofNat (b.toNat + i)
+
+def mapUnit {α} (r : Out α) : Out Unit :=
+  match r with
+  | .ok s _ => .ok s ()
+  | .fail s e => .fail s e
+  | .fault w => .fault w
+
+def boolRet {α} (_ : α) (_ : State) : String := "true"
+
+/-- `finish` with the refusal return text of bool/pointer methods -/
+def finishX {α} (elem : Bool) (st : St) (r : Out α) (okRet : α → State → String) (failRet : String) (alts : List Alt) : St × String :=
+  match r with
+  | .fail m _ => emit elem { st with m := m } "refused" "-" failRet alts
+  | r => finish elem st r noDetail okRet alts
+
+def stepX (elem : Bool) (st : St) (w : List String) : St × String :=
+  let m := st.m
+  let bad : St × String := (st, "bad-op")
+  match w with
+  | ["x", "handles", n, kind] =>
+    match nat? n with
+    | some n =>
+      if n < 1 ∨ n > 8 ∨ (kind ≠ "arr" ∧ (xKindOf kind).isNone) then bad
+      else if (kind = "te" ∨ kind = "ue") ≠ elem then bad
+      else
+        let st1 : St := { nh := n, m := { hs := List.replicate n none, wins := List.replicate n none }, sp := List.replicate n [], xkind := kind }
+        emit elem st1 "ok" "-" "-" [("ok -", st1.sp)]
+    | none => bad
+  | ["x", "end"] =>
+    if st.nh = 0 ∨ st.xkind = "" then bad
+    else
+      let r : Out Unit := (List.range st.nh).foldl (fun acc h =>
+        match acc with
+        | .ok s _ => refDrop s h
+        | x => x) (.ok m ())
+      let sp := List.replicate st.nh ([] : Vec.Vec)
+      match r with
+      | .ok m1 _ => emit elem { st with m := m1, sp := sp } "ok" "-" "-" [("ok -", sp)] true
+      | .fail m1 e => emit elem { st with m := m1 } "refused" "-" (failName e) [("ok -", sp)] true
+      | .fault w => (st, s!"R FAULT {w.replace " " "_"} | C - | I - | S ok - ; -")
+  | "x" :: op :: hs :: args =>
+    if st.nh = 0 ∨ st.xkind = "" then bad else
+    match handleArg st.nh hs with
+    | none => bad
+    | some h =>
+      let v := st.sp.getD h []
+      match op, args with
+      | "drop", [] => finish elem st (refDrop m h) noDetail (fun _ _ => "-") [okAlt st h []]
+      | "clone", [src] =>
+        match handleArg st.nh src with
+        | some h2 => finish elem st (refAssign m h h2) noDetail (fun _ _ => "-") [okAlt st h (st.sp.getD h2 [])]
+        | none => bad
+      | "copy", [src] =>
+        match handleArg st.nh src with
+        | some h2 =>
+          if h2 = h then bad
+          else
+            let r : Out Unit := match refDrop m h with
+              | .ok s1 _ => refAssign s1 h h2
+              | x => x
+            finish elem st r noDetail (fun _ _ => "-") [okAlt st h (st.sp.getD h2 [])]
+        | none => bad
+      | _, _ =>
+        if st.xkind = "arr" then
+          match op, args with
+          | "set", [dat] =>
+            match xData dat with
+            | some (bytes, _) => finishX elem st (arraySetX m h bytes) offRet "null" [okAlt st h bytes, refAlt st]
+            | none => bad
+          | "insert", [off, dat] =>
+            match nat? off, xData dat with
+            | some off, some (bytes, _) =>
+              if off > 100000 then bad
+              else finishX elem st (arrayInsertX m h off bytes) offRet "null" [okAlt st h (Vec.insert v off bytes), refAlt st]
+            | _, _ => bad
+          | "append", [dat] =>
+            match xData dat with
+            | some (bytes, _) => finishX elem st (arrayAppendX m h bytes) offRet "null" [okAlt st h (Vec.append v bytes), refAlt st]
+            | none => bad
+          | "setslice", [src, off, len] =>
+            match handleArg st.nh src, nat? off, nat? len with
+            | some h2, some off, some len =>
+              let sv := st.sp.getD h2 []
+              let alts := if off + len ≤ sv.length then [okAlt st h (Vec.sub sv off len), refAlt st] else [refAlt st]
+              finishX elem st (arraySetSlice m h h2 off len) (fun _ _ => "true") "false" alts
+            | _, _, _ => bad
+          | _, _ => bad
+        else
+          match xKindOf st.xkind with
+          | none => bad
+          | some k =>
+            let sz := k.t.size
+            let n := v.length / sz
+            let isE := k.t.init
+            match op, args with
+            | "insert", [pos, dat] =>
+              match intArg pos, xData dat with
+              | some pos, some ([b], false) =>
+                let val : Option (List Byte) := if isE then none else some (xVal k b)
+                let alts := match insertPos n pos with
+                  | some (p, _) => [okAlt st h (Vec.insert v (p * sz) (val.getD (Heap.zeros sz))), refAlt st]
+                  | none => [refAlt st]
+                if isE ∧ ¬ k.unique then
+                  -- `Elem val; insert(pos, val)`: a temporary source element around the call
+                  let first := m.next
+                  let r := uInsert (sourcesInit m 1) h k pos none (some first)
+                  let r' : Out Unit := match r with
+                    | .ok s u => .ok (sourcesFini s first 1) u
+                    | .fail s e => .fail (sourcesFini s first 1) e
+                    | .fault w => .fault w
+                  finishX elem st r' boolRet "false" alts
+                else finishX elem st (uInsert m h k pos val none) boolRet "false" alts
+              | _, _ => bad
+            | "set", [pos, dat] =>
+              match intArg pos, xData dat with
+              | some pos, some ([b], false) =>
+                if isE then bad
+                else
+                  let p : Option Nat :=
+                    if pos < 0 then (if pos + Int.ofNat n < 0 then none else some (pos + Int.ofNat n).toNat)
+                    else if pos ≥ Int.ofNat n then none else some pos.toNat
+                  let alts := match p with
+                    | some p => [okAlt st h (Vec.write v (p * sz) (xVal k b)), refAlt st]
+                    | none => [refAlt st]
+                  finishX elem st (uSet m h k pos (xVal k b)) boolRet "false" alts
+              | _, _ => bad
+            | "resize", [cnt] =>
+              match intArg cnt with
+              | some c =>
+                if c < 0 then bad
+                else
+                  let c := c.toNat
+                  let v' := if c * sz ≤ v.length then v.take (c * sz) else Vec.padTo v (c * sz)
+                  finishX elem st (uResize m h k c) boolRet "false" [okAlt st h v', refAlt st]
+              | none => bad
+            | "reserve", [cnt] =>
+              match intArg cnt with
+              | some c =>
+                if c < 0 then bad
+                else finishX elem st (uReserve m h k c.toNat) boolRet "false" [okAlt st h v, refAlt st]
+              | none => bad
+            | "detach", [] => finishX elem st (uDetach m h k) boolRet "false" [okAlt st h v, refAlt st]
+            | "trim", [cnt] =>
+              match nat? cnt with
+              | some c =>
+                if c > 100000 then bad
+                else
+                  let alts := if c * sz ≤ v.length then [okAlt st h (v.take (v.length - c * sz)), refAlt st] else [refAlt st]
+                  finishX elem st (xTrim m h k c) boolRet "false" alts
+              | none => bad
+            | "skip", [cnt] =>
+              match nat? cnt with
+              | some c =>
+                if c > 100000 then bad
+                else
+                  let alts := if c * sz ≤ v.length then [okAlt st h (v.drop (c * sz)), refAlt st] else [refAlt st]
+                  finishX elem st (xSkip m h k c) boolRet "false" alts
+              | none => bad
+            | _, _ => bad
+  | _ => bad
+
 /-- marker lines (`# ...`) separate scripts: both drivers start afresh -/
-def stepLine (elem : Bool) (st : St) (w : List String) : St × String := step elem st w
+def stepLine (elem : Bool) (st : St) (w : List String) : St × String :=
+  match w with
+  | "x" :: _ => stepX elem st w
+  | _ => step elem st w
 
 def main (elem : Bool) : IO Unit := do
   Driver.loop (← IO.getStdin) (← IO.getStdout) (stepLine elem) ({} : St)
